@@ -395,6 +395,7 @@ MUTANTS = [
     M('clear-before-ack', F, "        if self.protocol:\n            d = self.protocol.set_conf(*args)\n            d.addCallback(self._save_completed)\n            return d", "        if self.protocol:\n            d = self.protocol.set_conf(*args)\n            self.unsaved.clear()\n            d.addCallback(self._save_completed)\n            return d", ['R10.5']),
 ]
 TWINS = [
+    M('items-snapshot', F, "        for (key, value) in self.unsaved.items():", "        for (key, value) in list(self.unsaved.items()):"),
     M('orig-before-on_modify-result', F, "        obj = args[0]\n        obj.on_modify()\n        return orig(*args)", "        obj = args[0]\n        obj.on_modify()\n        result = orig(*args)\n        return result"),
     M('needs_save-bool', F, "        return len(self.unsaved) > 0", "        return bool(len(self.unsaved))"),
 ]
